@@ -50,7 +50,9 @@ def offered(pool, own):
     out = []
     for e in entries:
         o = own(e["expr"], None)
-        if "invalid" in o or o["ful"] is True:
+        if "notimpl" in o:
+            raise ExpectNotImplemented()
+        if ("invalid" in o or o["ful"] is True) and e["q"] not in out:  # a qualifier listed twice is offered once (if ANY of its lines is fulfilled)
             out.append(e["q"])
     return out
 
@@ -73,6 +75,8 @@ def pool_result(pool, segment_status, own):
 def segment_level_status(node, parent, own, soll):
     """(status, hints, invalid?)"""
     o = own(node["expr"], None)
+    if "notimpl" in o:
+        raise ExpectNotImplemented()  # the own evaluation of a VISITED node cannot be carried out (unknown package)
     if "invalid" in o:
         return "IS_OPTIONAL", o["invalid"], True
     return combine(parent, map_status(o["ind"], o["ful"], soll)), o["hints"], False
@@ -97,6 +101,9 @@ def walk(groups, own, soll_is_required, pending_errors=None, parent=None):
         for el in s["elements"]:
             if el["kind"] == "free":
                 o = own(el["expr"], el["input"])
+                if "notimpl" in o:
+                    errors.append(el["id"])
+                    continue
                 suffix = "_AND_FILLED" if el["input"] else "_AND_EMPTY"
                 if "invalid" in o:
                     out.append((el["id"], "free", "IS_OPTIONAL", {"hints": o["invalid"], "invalid": True, "fc_ful": True, "fc_msg": None}))
